@@ -411,6 +411,72 @@ def h_gcp_write(kind):
 
 
 
+def h_gcp_round_trip(kind):
+    """a GCP GeoBox with its own pixel affine (a crop, an overview) written with xr_coords and read
+    back: the labels written are positions in THIS box's pixel grid, so the affine recovered from
+    them is the identity over the re-based control points -- pixel (i, j) maps where it mapped"""
+    import sys
+    import types
+
+    import odc.geo._xr_interop as xr
+    import odc.geo.gcp as gcp
+    from affine import Affine
+
+    ny, nx = Int("ny", 2), Int("nx", 2)  # single-pixel axes have no spacing to read (X2)
+    if symx.concrete_mode():
+        import numpy as np
+
+        from odc.geo.gcp import GCPGeoBox, GCPMapping
+        from odc.geo.xr import xr_zeros
+
+        NY, NX = max(ny, 4) + 8, max(nx, 4) + 8
+        pix = np.asarray([[0.0, 0.0], [float(NX), 0.0], [float(NX), float(NY)], [0.0, float(NY)], [0.3 * NX, 0.6 * NY]])
+        wld = np.stack([pix[:, 0] * 3 - pix[:, 1] * 0.5 + 7, pix[:, 0] * 0.25 + pix[:, 1] * -2 + 11], axis=1)
+        g0 = GCPGeoBox((NY, NX), GCPMapping(pix, wld, "epsg:3857"))
+        g = g0[3:, 5:] if kind == "crop" else g0.zoom_out(2)
+        back = xr_zeros(g).odc.geobox
+        ok = True
+        for u, v in ((0.5, 0.5), (g.shape.x - 0.5, 0.5), (0.5, g.shape.y - 0.5), (g.shape.x / 2, g.shape.y / 2), (1.5, 2.5)):
+            wa, wb = g.pix2wld(u, v), back.pix2wld(u, v)
+            ok = ok and abs(wa[0] - wb[0]) < 1e-3 and abs(wa[1] - wb[1]) < 1e-3  # the mapping is affine here: fits agree to rounding
+        prove("recovered_box_maps_every_pixel_where_the_original_does", ok and tuple(back.shape) == tuple(g.shape))
+        return
+    n = 3
+    pix = [(Real(f"px{k}"), Real(f"py{k}")) for k in range(n)]
+    wld = [(Real(f"wx{k}"), Real(f"wy{k}")) for k in range(n)]
+    tx, ty = Real("tx"), Real("ty")
+    if kind == "crop":
+        A = Affine.translation(tx, ty)
+    else:
+        sx, sy = Real("sx"), Real("sy")
+        assume(And(sx > 0, sy > 0))
+        A = Affine.translation(tx, ty) * Affine.scale(sx, sy)
+    g = gcp.GCPGeoBox((ny, nx), _PtsMapping(pix, wld), A)
+    stub = types.ModuleType("rasterio.control")
+    stub.GroundControlPoint = _GCP
+    saved = sys.modules.get("rasterio.control")
+    sys.modules["rasterio.control"] = stub
+    try:
+        coords = xr.xr_coords(g)
+    finally:
+        if saved is None:
+            sys.modules.pop("rasterio.control", None)
+        else:
+            sys.modules["rasterio.control"] = saved
+    dims = tuple(g.dimensions)
+    prove("one_label_axis_per_dimension", all(d in coords for d in dims))
+    src = DA(None, coords={d: coords[d] for d in dims}, dims=dims)
+    T = xr._extract_transform(src, dims, None, True)
+    if T is None:
+        T = Affine.identity()
+    j, i = Int("probe_row", 0), Int("probe_col", 0)
+    assume(And(j < ny, i < nx))
+    h = F(1, 2)
+    px, py = T * (i + h, j + h)
+    prove("labels_are_positions_in_this_box:x", ex(px) == i + h)
+    prove("labels_are_positions_in_this_box:y", ex(py) == j + h)
+
+
 class _Arr:
     """pixel payload stand-in (the warp itself is GDAL's): only its shape and dtype are observable"""
 
@@ -663,6 +729,10 @@ OBLIGATIONS = [
        descr="GCPGeoBox.gcps(): written (col,row) are in this GeoBox's own pixel frame (internal affine applied gives back the control point's pixel position); world side unchanged; ids in order",
        functions=("odc.geo.gcp.GCPGeoBox.gcps",), bounds="3 symbolic control points; internal affine: translation / translation x scale / any invertible affine",
        stubs=("rasterio GroundControlPoint record", "control-point multipoints as vertex lists"), setup=setup, fresh_only=True),
+    Ob("X8_gcp_round_trip", h_gcp_round_trip, fixed(dict(kind="crop"), dict(kind="zoom")),
+       descr="a GCP GeoBox with its own pixel affine (crop, overview) written with xr_coords and read back: the labels are positions in this box's pixel grid (the affine recovered from them is the identity over the re-based control points written by gcps(), X5)",
+       functions=("odc.geo._xr_interop.xr_coords", "odc.geo._xr_interop._mk_pixel_coord", "odc.geo._xr_interop._extract_transform"), bounds="shape (sides >= 2), crop offset / overview scale, control points, probed pixel symbolic",
+       stubs=("passive xarray container", "LinSeq labels", "rasterio.control.GroundControlPoint record"), setup=setup),
     Ob("X6_reproject_assembly", h_reproject_assembly, fixed(dict(crs_name="spatial_ref", dst_crs="epsg:32633"), dict(crs_name="crs", dst_crs="epsg:32633"), dict(crs_name="crs", dst_crs="epsg:4326"), dict(crs_name="_crs", dst_crs="epsg:32633", enc=False), dict(crs_name="spatial_ref", dst_crs="epsg:4326", enc=False)),
        descr="_xr_reproject_da output assembly (warp stubbed): recovered GeoBox == requested destination (also once the encoding is gone), one CRS coordinate, old spatial coordinates dropped, others kept, stale attributes pruned",
        functions=("odc.geo._xr_interop._xr_reproject_da", "odc.geo._xr_interop.xr_coords", "odc.geo._xr_interop._locate_geo_info", "odc.geo._xr_interop._locate_crs_coords"),
